@@ -96,6 +96,14 @@ RULE = (
     "money*, decimal, datetime, unit, t/gettext family, translate tag) with every referenced "
     "variable present x {no optional name, all 11, each one} supplied, sync and async, and "
     "random optional-name subsets added to 40% of the seeded programs; "
+    "(f) 13 object-valued + 6 scalar template-local binders (loop variable, assign, capture, "
+    "macro parameter, render/include argument or with/for alias, with-block, tablerow "
+    "variable) x 45 + 21 uses of the local in every expression position (render/include "
+    "with|for|kw, call, with, cycle, case/when, for in/limit/offset/range, tablerow, echo, "
+    "assign, capture, filter arguments, lambda bodies, template strings, translate, "
+    "ternary, if, liquid tag, computed index, array literal) at nesting depth 0, 1 and 2 "
+    "(if/for/with/unless/case/macro/render/include wrappers), complete by construction, "
+    "sync and async; "
     "sync and async; each case = one policy triple (Undefined, StrictUndefined, "
     "FalsyStrictUndefined). distinct = hash(source, data, mode); non-trivial = at least "
     "one variable deleted or a strict policy raised UndefinedError."
@@ -835,11 +843,14 @@ class Runner:
                 # partials whose removal leaves the verdict intact (a referenced one
                 # would fail with TemplateNotFound instead) and data roots whose name
                 # occurs nowhere in the remaining sources
-                tpls = dict(templates)
-                for name in list(tpls):
-                    t2 = {k: v for k, v in tpls.items() if k != name}
-                    if name not in src and bad(src, t2, data, complete, nouse):
-                        tpls = t2
+                tpls = _referenced(src, templates)
+                if len(tpls) == len(templates) or not bad(src, tpls, data, complete, nouse):
+                    tpls = dict(templates)
+                    if len(tpls) <= 24:
+                        for name in list(tpls):
+                            t2 = {k: v for k, v in tpls.items() if k != name}
+                            if name not in src and bad(src, t2, data, complete, nouse):
+                                tpls = t2
                 texts = src + "\x00" + "\x00".join(tpls.values())
                 dat = {k: v for k, v in data.items()
                        if re.search(r"(?<![\w-])" + re.escape(str(k)) + r"(?![\w-])", texts)
@@ -850,7 +861,9 @@ class Runner:
             if len(src) <= 1500:
                 src = ddmin_str(src, lambda s: bad(s, templates, data), max_calls=260)
             # partials: drop, then shrink those that remain (fresh dict each time: env cache)
-            tpls = dict(templates)
+            tpls = _referenced(src, templates)
+            if not bad(src, tpls, data):
+                tpls = dict(templates)
             for name in list(tpls):
                 t2 = {k: v for k, v in tpls.items() if k != name}
                 if bad(src, t2, data):
@@ -871,6 +884,23 @@ class Runner:
             return src, tpls, dat
         except Exception:  # noqa: BLE001
             return source, templates, data
+
+
+def _referenced(src: str, templates: dict[str, str]) -> dict[str, str]:
+    """The partials the source names, transitively (all of them if a name is computed)."""
+    if re.search(r"\{%[-~+]?\s*(include|render|extends)\s+[^'\"\s]", src):
+        return dict(templates)
+    keep: dict[str, str] = {}
+    texts = [src]
+    grew = True
+    while grew:
+        grew = False
+        for name, body in templates.items():
+            if name not in keep and any(name in t for t in texts):
+                keep[name] = body
+                texts.append(body)
+                grew = True
+    return keep
 
 
 def _shrink_data(data: dict[str, Any], bad, budget: int = 120) -> dict[str, Any]:  # noqa: ANN001
@@ -1151,7 +1181,9 @@ def floors(tier: str) -> dict[str, int]:
         "set:touch_kinds": 8,
         "set:nouse_kinds": 50,
         "set:statement_kinds": 150,
-        "sweep_programs": 9000,
+        "sweep_programs": 12000,
+        "local_binding_triples": 3500,
+        "set:local_binder_x_use": 600,
         "short_circuit_async": 1000,
         "short_circuit_sync": 1000,
         "optional_context_name_triples": 600,
@@ -1309,7 +1341,10 @@ def _sweep(r: Runner, spec: dict[str, Any], ctx: Ctx) -> None:
             ctx.count("sweep_programs")
             if kind.startswith("nouse:sc-"):
                 ctx.count("short_circuit_" + mode)
-            if e["complete"]:
+            if kind.startswith("local:"):
+                ctx.count("local_binding_triples")
+                ctx.seen("local_binder_x_use", "/".join(kind.split("/")[:2]))
+            elif e["complete"]:
                 ctx.count("optional_context_name_triples")
         ctx.seen("nouse_kinds" if "nouse" in kind else "statement_kinds", kind)
         last = {"kind": "sweep", "form": kind, "source": src}
